@@ -243,7 +243,7 @@ fn damage_frame(name: &str, f: &[u8], rng: &mut Rng, deep: bool, pair_budget: us
 
 pub fn run(ctx: &Ctx, replay: Option<&J>) -> CheckResult {
     crate::crc::self_check();
-    let rule = "valid frames (all golden frames of /repo/testdata plus random-payload frames of lengths 0..=1023 sampled/edge) x \
+    let rule = "valid frames (all golden frames of /repo/testdata plus random-payload frames of lengths 0..=1023 sampled/edge, frames whose checksum is 0x000000 / 0xFFFFFF / 0xD30000 / ...) x \
         {every single bit in reserved bits/payload/checksum; all bit pairs for frames <=24 bytes, sampled pairs otherwise; random odd-weight \
         patterns 3..31; bursts of every length 2..=24 (first and last bit flipped, random interior) at every start (short frames / thorough) \
         or at region ends + sampled starts}; preamble and the 10 length bits are not damaged. oracle: MessageFrame::new == Err(NotValid), \
@@ -274,6 +274,15 @@ pub fn run(ctx: &Ctx, replay: Option<&J>) -> CheckResult {
         let class = if i % 5 == 4 { 5 } else { 2 };
         let p = crate::pool::payload_of_class(&mut rng, *l, class);
         frames.push((format!("random-L{}", l), crate::frame::frame_with_reserved(&p, if i % 3 == 0 { rng.below(64) as u8 } else { 0 })));
+    }
+    // frames whose checksum is a special value (all-zero, all-one, 0xD3 bytes ...)
+    for (k, target) in crate::pool::SPECIAL_CRCS.iter().enumerate() {
+        for l in [3usize, 7, 40, 250] {
+            if l > 40 && k % 3 != 0 {
+                continue;
+            }
+            frames.push((format!("crc-{:06x}-L{}", target, l), crate::pool::frame_with_crc(&mut rng, l, 0, *target)));
+        }
     }
     let deep = ctx.tier == Tier::Thorough;
     let pair_budget = ctx.n(4000, 60_000) as usize;
